@@ -882,11 +882,36 @@ func judge(sc Scenario, o outcome, k consts) []finding {
 		}
 	}
 	margin := 150 * time.Millisecond
+	// when did the client last write on each connection, and can a receive loop get stuck in handleConn
+	// (full job queue)?
+	lastSend := map[int]time.Duration{}
+	nreq := 0
+	for _, e := range o.evs {
+		if e.Kind == "S" || e.Kind == "O" {
+			lastSend[e.C] = e.At
+			nreq++
+		}
+	}
+	noEnqueueBlock := sc.Pool == 0 || nreq <= sc.Pool+sc.QCap
 	for c := range connected {
 		if _, ok := msg[c]; ok {
 			continue
 		}
 		x, closed := eof[c]
+		// A connection that was established (and warmed up) before Shutdown was called, that the client
+		// never closes, must get the close message before the server closes it. The code's own margin
+		// between the first shutdown poll (which sends the message) and the earliest close of a
+		// connection that was busy right at the call is only ~100 ms, so the strict rule is applied where
+		// the margin is wide: the connection was quiet for 150 ms before the call (its receive loop
+		// sleeps in Read until sendCloseMsg wakes it), or its last request was written at least 100 ms
+		// after the call (its receive loop returns 100 ms after that and must then wait one drain tick).
+		tl := lastSend[c]
+		strict := tH > 0 && noEnqueueBlock && o.ctx >= time.Duration(3*k.pollMs)*time.Millisecond &&
+			(tl <= tH-150*time.Millisecond || tl >= tH+100*time.Millisecond)
+		if strict && closed {
+			fs = append(fs, finding{"close-msg-missing", "recv-drain", fmt.Sprintf("connection %d (last request written %v relative to the Shutdown call) was closed by the server at %v without having received the close message", c, tl-tH, x-tH)})
+			continue
+		}
 		if firstMsg >= 0 && (!closed || x > firstMsg+margin) {
 			fs = append(fs, finding{"close-msg-missing", "sendCloseMsg", fmt.Sprintf("connection %d was open when other connections got the close message (at %v) and never got it", c, firstMsg)})
 		} else if firstMsg < 0 && tH > 0 && o.ctx >= time.Duration(3*k.pollMs)*time.Millisecond &&
@@ -1057,6 +1082,10 @@ func fixedScenarios() []Scenario {
 		{Kind: "plan", Conns: []ConnPlan{{Reqs: []ReqPlan{{Dur: 300, Kind: "oneway"}, {Dur: 100}}}}, Trigger: "started", CtxMs: 9000, Model: true},
 		{Kind: "plan", Pool: 2, QCap: 8, Conns: []ConnPlan{{Reqs: []ReqPlan{{Dur: 0, Kind: "oneway"}, {Dur: 30}, {Dur: 10, Kind: "empty"}}}, {Reqs: []ReqPlan{{Dur: 0, Kind: "empty"}}}}, Trigger: "done", CtxMs: 10000, Model: true},
 		{Kind: "plan", Pool: 1, QCap: 2, Conns: []ConnPlan{{Reqs: []ReqPlan{{Dur: 50}, {Dur: 20, Kind: "oneway", LateMs: 150}}}}, Trigger: "done", CtxMs: 9000, Model: true},
+		// requests written 0–450 ms AFTER Shutdown was called (before its first poll), quick handlers, then
+		// silence: the connection must still be there when the poll sends the close message
+		{Kind: "plan", Conns: []ConnPlan{{Reqs: late(20, 0)}, {Reqs: late(150, 0)}, {Reqs: late(300, 10)}, {Reqs: late(430, 0)}}, Trigger: "idle", CtxMs: 6000, Model: true},
+		{Kind: "plan", Pool: 2, QCap: 64, Conns: []ConnPlan{{Reqs: late(120, 0)}, {Reqs: r(40)}, {Reqs: late(380, 20)}}, Trigger: "done", CtxMs: 6000, Model: true},
 		// slow readers: the responses of one connection exceed the socket buffers and the client does not
 		// read from before the shutdown until well after the drain poll; every response, then the close
 		// message, then EOF must still arrive
@@ -1148,7 +1177,7 @@ func randomScenario(rng *rand.Rand, thorough bool) Scenario {
 			cp.Reqs = append(cp.Reqs, ReqPlan{Dur: durs(rng), Kind: reqKind(rng)})
 		}
 		if rng.Intn(4) == 0 { // late requests, all written at the same moment
-			ms := 60 + rng.Intn(200)
+			ms := 1 + rng.Intn(450)
 			for i := 0; i < 1+rng.Intn(2); i++ {
 				cp.Reqs = append(cp.Reqs, ReqPlan{Dur: durs(rng) / 2, LateMs: ms})
 			}
